@@ -788,6 +788,48 @@ func rulesC10(p *Prog, r *Report) {
 		}
 	}
 
+	// R10.13 the price stops falling at the end time ------------------------------------------------
+	// The posted price is recomputed from the elapsed time; past the auction's EndTime it would
+	// fall below the end price. Every price update of a V2 auction is reachable only while the
+	// block time is not after the auction's EndTime (expired auctions are restarted or settled).
+	r.Rule("R10.13", "V2: UpdateDutchAuction is called only while the block time is not after the auction's EndTime", 1)
+	{
+		notExpired := &GuardSpec{Name: "!BlockTime.After(EndTime)", Local: func(f *ssa.Function, cond ssa.Value) (bool, bool) {
+			a := p.Atom(cond)
+			c, ok := a.Val.(*ssa.Call)
+			if !ok || !strings.HasSuffix(calleeFullName(&c.Call), "time.Time.After") || len(c.Call.Args) != 2 {
+				return false, false
+			}
+			if !p.isBlockTimeCall(c.Call.Args[0]) || !p.fromRecordFieldsLoose(c.Call.Args[1], map[string]bool{"Auction": true}, map[string]bool{"EndTime": true}) {
+				return false, false
+			}
+			if a.Neg {
+				return true, false
+			}
+			return false, true
+		}}
+		n := 0
+		for _, fn := range p.Funcs {
+			if moduleOf(fn) != "auctionsV2" || p.isAuxFn(fn) || len(fn.Blocks) == 0 {
+				continue
+			}
+			for _, c := range calls(fn) {
+				if !p.callIs(c, "UpdateDutchAuction") {
+					continue
+				}
+				n++
+				r.Instance("R10.13")
+				r.FuncsSeen[fname(fn)] = true
+				construct := fmt.Sprintf("%s price update #%d", fname(fn), n)
+				if ok, w := p.GuardedSite(notExpired, c); ok {
+					r.OK("R10.13", construct, "only while the auction has not expired", p.instrPos(c))
+				} else {
+					r.Fail("R10.13", construct, "the price of an auction can be updated after its EndTime: the posted price falls below the configured end price (and keeps falling)", p.instrPos(c), w)
+				}
+			}
+		}
+	}
+
 	// R10.12 V2 settlement pays out what was collected, not what was still open ------------------
 	// The settlement callbacks of the liquidation module receive the liquidation record and the
 	// auction. Auction.DebtToken is the debt STILL TO BE collected (every bid reduces it): a
